@@ -75,6 +75,8 @@ class KFLWorld(engine.World):
         "scale_init": s.weighted([("default", 8), ("normal", 2)]),
         "init_seed": s.seed31(),
         "input_style": s.weighted([("tensor", 3), ("list", 1)]),
+        # Built frozen (fine-tuning set-ups) in a minority of worlds.
+        "trainable": not s.sub("trainable").chance(0.15),
     }
     # Swarm profile.
     p = rng_lib.Stream(run_seed, "kfl-profile")
@@ -84,12 +86,16 @@ class KFLWorld(engine.World):
                     ("snapshot", 1.0), ("restore", 1.0)):
       if p.chance(0.7):
         kinds.append((kind, w * p.log10_uniform(-0.5, 0.5)))
-    if p.sub("focus").chance(0.2):
+    if not spec["trainable"] or p.sub("toggle").chance(0.15):
+      kinds.append(("toggle_trainable", 1.5))
+    if p.sub("focus").chance(0.2) or not spec["trainable"]:
       # Focus profile: arbitrary weights (raw writes, restored snapshots)
       # repaired by finalize_constraints() / manual constraint application
       # alone, which uses its own constraint objects.
       kinds = [("step", 3.0), ("raw_write", 4.0), ("finalize", 4.0),
                ("manual", 2.0), ("snapshot", 1.0), ("restore", 1.0)]
+      if not spec["trainable"]:
+        kinds.append(("toggle_trainable", 2.0))
     fam_mode = p.weighted([("new", 2), ("legacy", 2), ("both", 5)])
     fams = {"new": ["new"], "legacy": ["legacy"], "both": ["new", "legacy"]}[
         fam_mode]
@@ -173,6 +179,7 @@ class KFLWorld(engine.World):
           output_min=sp["output_min"],
           output_max=sp["output_max"],
           clip_inputs=sp["clip_inputs"],
+          trainable=sp.get("trainable", True),
           **kwargs)
       self._call(np.zeros(self._in_shape(1), dtype=np.float32))
     self.L = sp["lattice_sizes"]
@@ -280,8 +287,18 @@ class KFLWorld(engine.World):
       out[n] = np.array(g.numpy(), dtype=np.float32)
     return out
 
+  def _ev_toggle_trainable(self, ev, ctx):
+    """Freeze / unfreeze the layer (fine-tuning histories)."""
+    self.layer.trainable = not self.layer.trainable
+    ctx.fire("toggle_trainable")
+    ctx.token("trainable:%d" % int(self.layer.trainable))
+
   def _ev_step(self, ev, ctx):
     tf = self.tf
+    if not self.layer.trainable:
+      # A frozen layer receives no optimizer updates.
+      ctx.count("noop:step_on_frozen_layer")
+      return
     es = rng_lib.Stream(ev["seed"], "step")
     lr = float(ev["lr"])
     mag = float(ev["mag"])
